@@ -22,11 +22,16 @@ def modelled : Bool := true
 /-- `Sign::value()` : `Positive = 0 ↦ 1`, `Negative = 1 ↦ -1` (i16) -/
 def signValue (sign : Nat) : Int := if sign == 0 then 1 else -1
 
-/-- `(val as i16 - 1) * sign.value()` (i16, overflow-checked); `val` is a 10-bit code.
-    Code 0 ("no information") is *not* special-cased by the code: it yields `∓1`. -/
-def velComponent (sign val : Nat) : Outcome Int := do
+/-- `let lsb = if subtype == 2 { 4 } else { 1 }` (i16): the context value `subtype` of
+    `GroundSpeedDecoding` selects the resolution, 4 kt for the supersonic subtype 2 -/
+def velLsb (subtype : Nat) : Int := if subtype == 2 then 4 else 1
+
+/-- `(val as i16 - 1) * sign.value() * lsb` (i16, overflow-checked, left to right); `val` is a
+    10-bit code.  Code 0 ("no information") is *not* special-cased by the code: it yields `∓lsb`. -/
+def velComponent (subtype sign val : Nat) : Outcome Int := do
   let a ← subS 16 (val : Int) 1
-  mulS 16 a (signValue sign)
+  let b ← mulS 16 a (signValue sign)
+  mulS 16 b (velLsb subtype)
 
 /-- `vertical_rate`: `if v == 0 {None} else {Some(vrate_sign.value() * (v as i16 - 1) * 64)}` -/
 def vrate (sign v : Nat) : Outcome (Option Int) :=
@@ -81,14 +86,14 @@ def airspeedFields (heading : Option Json) (asType : Nat) (speed : Option Nat) :
     (if asType == 0 then skipNone (key! "IAS") (speed.map jnat)
      else skipNone (key! "TAS") (speed.map jnat)) ]
 
-/-- `GroundSpeedDecoding` (subtypes 1 and 2 — the ×4 of subtype 2 is not applied by the code) -/
-def readGroundSpeed : R Fields := do
+/-- `GroundSpeedDecoding` (`ctx = "subtype: u8"`; subtypes 1 and 2: LSB 1 kt resp. 4 kt) -/
+def readGroundSpeed (subtype : Nat) : R Fields := do
   let ewSign ← enumId 1
   let ewRaw ← bits 10
-  let ew ← R.lift (velComponent ewSign ewRaw)
+  let ew ← R.lift (velComponent subtype ewSign ewRaw)
   let nsSign ← enumId 1
   let nsRaw ← bits 10
-  let ns ← R.lift (velComponent nsSign nsRaw)
+  let ns ← R.lift (velComponent subtype nsSign nsRaw)
   pure [ fld (key! "groundspeed") (groundspeedJ ew ns), fld (key! "track") (trackJ ew ns) ]
 
 /-- `AirspeedSubsonicDecoding` (subtype 3) -/
@@ -118,7 +123,7 @@ def readVelocity (subtype : Nat) : R Fields := do
   let _ ← enumId 0
   if subtype == 0 then do
     let _ ← bitsLE 22; pure []
-  else if subtype == 1 || subtype == 2 then readGroundSpeed
+  else if subtype == 1 || subtype == 2 then readGroundSpeed subtype
   else if subtype == 3 then readAirspeedSub
   else if subtype == 4 then readAirspeedSuper
   else do
